@@ -63,7 +63,29 @@ def fmt_string(case, with_limits=True):
     return s if s else None
 
 
+class Level(str, __import__("enum").Enum):
+    """a str-mixin enum: the member IS the string 'high', its str() is 'Level.H'"""
+    H = "high"
+    L = "lo"
+    E = ""
+
+
+class Tag(str):
+    """a str subclass with a text form of its own"""
+
+    def __str__(self):
+        return "<" + str.__str__(self) + ">"
+
+
+def dv(v):
+    """cell value of a case -> the object put into the record: {"$str": "enum", "i": n} / {"$str": "tag", "s": text}"""
+    if isinstance(v, dict) and "$str" in v:
+        return list(Level)[v["i"] % 3] if v["$str"] == "enum" else Tag(v["s"])
+    return v
+
+
 def make_records(case):
+    case = dict(case, records=[[dv(v) for v in r] for r in case["records"]])
     recs = _make_records(case)
     # case["same_as"]: {index: earlier index} - these positions of the records list hold the very same row object
     for i, j in sorted((int(i), j) for i, j in (case.get("same_as") or {}).items()):
@@ -222,7 +244,7 @@ def expected_cell_texts(case, c, rec):
     v = rec[c["f"]]
     if fname in (case.get("enums") or {}):
         return enum_expected(case, fname, v, c.get("mod"))
-    return [str(v)]
+    return [str(dv(v))]
 
 
 def body_model(case, cols):
@@ -231,7 +253,7 @@ def body_model(case, cols):
     prev = None
     brk = [c["f"] for c in cols if c.get("brk")]
     for i, r in enumerate(case["records"]):
-        cur = [r[f] for f in brk]
+        cur = [dv(r[f]) for f in brk]
         if prev is not None and prev != cur:
             lines.append(("brk",))
         lines.append(("rec", i))
@@ -384,7 +406,9 @@ def st_value():
         st.none(), st.booleans(), st.integers(-10**6, 10**6), st.integers(),
         st.floats(allow_nan=False, allow_infinity=False, width=32),
         st.text(VAL_ALPHABET, max_size=12), st.text(VAL_ALPHABET, max_size=12), st.text("ab", max_size=3),
-        st.text(VAL_ALPHABET, min_size=10, max_size=40))
+        st.text(VAL_ALPHABET, min_size=10, max_size=40),
+        # str subclasses whose str() is not their content
+        st.integers(0, 2).map(lambda i: {"$str": "enum", "i": i}), st.text("ab|", max_size=6).map(lambda s_: {"$str": "tag", "s": s_}))
 
 
 def st_title():
